@@ -324,6 +324,15 @@ def c05(c):
     c.small("MC_Recode", cfg="MC_Recode16.cfg")
     c.small("MC_Recode", cfg="MC_Recode_nohead.cfg", workers=4, expect_violation=True)
     c.small("MC_Precomp", cfg="MC_Precomp.cfg", workers=8)
+    # the recoding loop for ANY scalar and ANY number of windows, bases 2^8 and 2^16 (inductive invariant, Apalache)
+    obl = []
+    for ci in ("CInit8", "CInit16"):
+        obl += [("%s: Init => IndInv" % ci, ["--cinit=" + ci, "--init=Init", "--inv=IndInv", "--length=0"], False),
+                ("%s: IndInv /\\ Next => IndInv'" % ci, ["--cinit=" + ci, "--init=IndInit", "--inv=IndInv", "--length=1"], False),
+                ("%s: IndInv => Safe" % ci, ["--cinit=" + ci, "--init=IndInit", "--inv=Safe", "--length=0"], False)]
+    obl += [("mutant (carry never cleared) refuted", ["--cinit=CInitMut", "--init=Init", "--inv=Safe", "--length=3"], True),
+            ("non-vacuity: a completed three-window run exists", ["--cinit=CInit8", "--init=Init", "--inv=NoCompletedRun", "--length=5"], True)]
+    c.apalache("RecodeInd", obl)
     progs = c.generate("Gen_Commit")
     files = c.drive("commit", progs, shards=vlib.NCPU if not quick else 8)
     # the configuration (CRS, precomputed tables: built by parallel workers) created on machines with 3 (thorough: 1, 3, 5, 7) CPUs:
